@@ -207,6 +207,24 @@ def addOrRenew (h : Bytes → Bytes) (f : File) (avail : Nat) (li : Lease) : Fil
     | (_, some .indexError) => addLease f avail (toStored h s li)
     | (f', some e) => (f', some e)
 
+/-- the record-blanking loop of `cancel_lease` over the matching slots -/
+def blankSlots (f : File) (rec : Bytes) : List Nat → File
+  | [] => f
+  | i :: rest => blankSlots (writeLeaseRecord f i rec) rec rest
+
+/-- `MutableShareFile.cancel_lease(cancel_secret)`: every listed lease with that cancel secret is
+    overwritten IN PLACE by the serialized blank lease (`_pack_leases` is a no-op, so holes remain);
+    if no lease remains the file is unlinked (`none`).  Returns (file, freed space, error). -/
+def cancelLease (h : Bytes → Bytes) (f : File) (secret : Bytes) : Option File × Nat × Option Err :=
+  match schemaOf f with
+  | none => (some f, 0, some .unknownVersion)
+  | some s =>
+    let L := enumerateLeases f
+    let hit := L.filter fun p => isCancelSecret h s p.2 secret
+    if hit.isEmpty then (some f, 0, some .indexError) else
+    let f' := blankSlots f (serMut (toStored h s blankLease)) (hit.map (·.1))
+    if L.length - hit.length = 0 then (none, f'.length, none) else (some f', 0, none)
+
 /-! ### invariant and abstraction (DESIGN.md Appendix A.3) -/
 
 /-- container invariant: the data region lies below the extra-lease block, the container size is
